@@ -23,6 +23,7 @@ func init() {
 			"K7 with the state assumed Running the insertion into MaxJobsSemaphore.running is reachable in the method RemoteJobManager.reattach calls (re-attached running jobs are counted). " +
 			"K8 a fractional reservation is scaled to the semaphore's unit before it is rounded (no float->integer conversion multiplied by a constant afterwards). " +
 			"K9 the memory measurement that reaches UpdateFreeUsed excludes the job manager's own process. " +
+			"K10 no re-attach call is control dependent on the boolean result of another re-attach call. " +
 			"NOT decided: arithmetic of UpdateFreeUsed, curSize<=maxSize through UpdateSize, progress of the run loop.",
 		Assumptions: commonAssumptions,
 	}
@@ -435,6 +436,7 @@ func runC12(c *an.Ctx) {
 	ruleK7(c)
 	ruleK8(c)
 	ruleK9(c)
+	ruleK10(c)
 }
 
 // loadBefore reports whether the field load v happens before the store st on
